@@ -85,6 +85,32 @@ func fnRoundTrip() *run.Fn {
 		return w.L(w.I(consts.GeoCrs), w.I(consts.OrthCrs), fwd, back)
 	}}
 }
+// consecutive calls made back to back; step = (direction: 0 forward / 1 backward, list, crs). Nothing else calls the library's
+// functions in between (the runner is sequential and the oracle goes to wgs84 directly), so a result that depends on the calls
+// made before is visible here and the case replays on its own.
+func fnCallSequence() *run.Fn {
+	return &run.Fn{Name: "CallSequence", Invoke: func(a []w.Val) w.Val {
+		steps := w.AsList(a[0])
+		out := make(w.List, len(steps))
+		// every history starts from the same point: one valid call (empty list, EPSG:4326), result ignored. Whatever earlier cases left
+		// behind in a remembered-last-code kind of state is overwritten, so the observation is a function of the steps alone and a
+		// failing sequence (also a shrunk one) replays on its own.
+		_, _ = shape.ConvertPointListToProjectedPointList(nil, consts.GeoCrs)
+		for i, st := range steps {
+			f := w.AsList(st)
+			crs := int(w.AsInt(f[2]))
+			if w.AsInt(f[0]) == 0 {
+				pp, err := shape.ConvertPointListToProjectedPointList(PointsFromVal(f[1]), crs)
+				out[i] = withErr(ppVal(pp), err)
+			} else {
+				ps, err := shape.ConvertProjectedPointListToPointList(ppFromVal(f[1]), crs)
+				out[i] = withErr(PointsVal(ps), err)
+			}
+		}
+		return out
+	}}
+}
+
 func fnEpsgCodes() *run.Fn {
 	return &run.Fn{Name: "EpsgCodes", Invoke: func(a []w.Val) w.Val {
 		cs := wgs84.EPSG().Codes()
@@ -438,14 +464,29 @@ func init() {
 		}
 		MathOracles(r)
 		transformOracle(r)
-		r.Register(fnToProjected(), fnToGeographic(), fnRoundTrip(), fnEpsgCodes())
+		r.Register(fnToProjected(), fnToGeographic(), fnRoundTrip(), fnCallSequence(), fnEpsgCodes())
 		repo := wgs84.EPSG()
 		world := func() (w.Val, string) { return validPoint(g) }
 		if n > 0 {
 			r.Run(run.Case{Prop: "C18", Fn: "EpsgCodes", Args: []w.Val{}, Tags: []string{"epsg-table"}})
 			regressions(r)
 		}
+		lastCrs, haveLast := 0, false
+		sticky := func(crs int, ctag string) (int, string) { // one call in four repeats the code of the previous forward/backward call
+			if haveLast && g.Chance(0.25) {
+				crs = lastCrs
+				ctag += ",same-code-as-previous-call"
+			}
+			lastCrs, haveLast = crs, true
+			return crs, ctag
+		}
 		for i := 0; i < n; i++ {
+			if g.Chance(0.12) {
+				steps, tags := callSequence(g, repo)
+				r.Run(run.Case{Prop: "C18", Fn: "CallSequence", Args: []w.Val{steps}, Tags: tags})
+				haveLast = false
+				continue
+			}
 			switch k := g.Intn(20); {
 			case k < 8: // there and back through EPSG:3857
 				l, tags := pointList(g, world)
@@ -470,6 +511,7 @@ func init() {
 				default:
 					crs, ctag = unknownCode(g), "fwd-unknown-code"
 				}
+				crs, ctag = sticky(crs, ctag)
 				if ctag == "fwd-other-code" && g.Chance(0.3) {
 					// points inside the CRS's area followed by one outside it: the error comes with a non-empty prefix
 					b := areaOf(crs)
@@ -492,7 +534,7 @@ func init() {
 					ctag += ",alt-beyond-domain"
 				}
 				r.Run(run.Case{Prop: "C18", Fn: "ConvertPointListToProjectedPointList", Args: []w.Val{l, w.I(int64(crs))},
-					Tags: append(tags, strings.Split(ctag, ",")...), Trivial: len(l) == 0 && !strings.HasPrefix(ctag, "fwd-unknown-code")})
+					Tags: append(tags, strings.Split(ctag, ",")...), Trivial: len(l) == 0 && repo.Code(crs) != nil})
 			default: // backward
 				crs, ctag := consts.OrthCrs, "back-3857"
 				gen := world
@@ -507,16 +549,97 @@ func init() {
 				default:
 					crs, ctag = unknownCode(g), "back-unknown-code"
 				}
+				crs, ctag = sticky(crs, ctag)
 				src := crs
-				if ctag == "back-unknown-code" {
+				if repo.Code(crs) == nil {
 					src = consts.OrthCrs
 				}
 				l, tags := projList(g, repo, src, gen)
 				r.Run(run.Case{Prop: "C18", Fn: "ConvertProjectedPointListToPointList", Args: []w.Val{l, w.I(int64(crs))},
-					Tags: append(tags, ctag), Trivial: len(l) == 0 && ctag != "back-unknown-code"})
+					Tags: append(tags, strings.Split(ctag, ",")...), Trivial: len(l) == 0 && repo.Code(crs) != nil})
 			}
 		}
 	}
+}
+
+// a short history of related calls: a small pool of codes (valid and unknown), the same code repeated in consecutive calls, both
+// directions mixed - so that any cache or remembered state keyed on the code is exercised. Points are few and low (no finding class).
+func callSequence(g *Gen, repo *wgs84.Repository) (w.Val, []string) {
+	lowPoint := func(b box) (float64, float64, float64) {
+		for {
+			lon := b.lon0 + g.R.Float64()*(b.lon1-b.lon0)
+			lat := b.lat0 + g.R.Float64()*(b.lat1-b.lat0)
+			alt := g.PickF(0, 0, 12.5, -3, 100, (g.R.Float64()*2-1)*500)
+			if p, _, ok := StoredPoint(lon, lat, alt); ok {
+				return p.Lon(), p.Lat(), alt
+			}
+		}
+	}
+	valid := []int{consts.OrthCrs, consts.OrthCrs, 4326, 900913, knownCode(g)}
+	v1, v2 := valid[g.Intn(len(valid))], valid[g.Intn(len(valid))]
+	u1, u2 := unknownCode(g), unknownCode(g)
+	if g.Chance(0.3) {
+		u1 = int(g.Pick(9999, 1, 99999, 0))
+	}
+	var codes []int
+	tag := ""
+	switch g.Intn(8) {
+	case 0:
+		codes, tag = []int{v1, u1, u1}, "seq-valid-unknown-unknown"
+	case 1:
+		codes, tag = []int{v1, u1, u1, u1, v1}, "seq-valid-unknown-x3-valid"
+	case 2:
+		codes, tag = []int{v1, u1, v2, u1, u1}, "seq-alternating"
+	case 3:
+		codes, tag = []int{v1, u1, u2, u1, u2, u2}, "seq-two-unknown-codes"
+	case 4:
+		codes, tag = []int{u1, u1, v1, u1, u1}, "seq-unknown-first"
+	case 5:
+		codes, tag = []int{v1, v2, v1, v1, v2}, "seq-valid-codes-repeated"
+	default:
+		pool := []int{v1, v2, u1, u2}
+		n := 3 + g.Intn(5)
+		c := pool[g.Intn(4)]
+		for i := 0; i < n; i++ {
+			if !g.Chance(0.5) {
+				c = pool[g.Intn(4)]
+			}
+			codes = append(codes, c)
+		}
+		tag = "seq-random-pool"
+	}
+	steps := make(w.List, len(codes))
+	for i, c := range codes {
+		b := areaOf(c)
+		k := 1 + g.Intn(2)
+		if g.Chance(0.1) {
+			k = 0
+		}
+		if g.Chance(0.5) { // forward
+			pts := make(w.List, k)
+			for j := range pts {
+				lon, lat, alt := lowPoint(b)
+				pts[j] = w.L(w.F(lon), w.F(lat), w.F(alt))
+			}
+			steps[i] = w.L(w.I(0), pts, w.I(int64(c)))
+		} else { // backward: images of valid points (through the code itself when the library has it, else through EPSG:3857)
+			src := c
+			if repo.Code(c) == nil {
+				src = consts.OrthCrs
+			}
+			pts := make(w.List, k)
+			for j := range pts {
+				lon, lat, alt := lowPoint(b)
+				x, y, _, err := wgs84.SafeTransform(repo.Code(consts.GeoCrs), repo.Code(src))(lon, lat, alt)
+				if err != nil {
+					x, y = lon, lat
+				}
+				pts[j] = w.L(w.F(x), w.F(y), w.F(alt))
+			}
+			steps[i] = w.L(w.I(1), pts, w.I(int64(c)))
+		}
+	}
+	return steps, []string{"call-sequence", tag, Tag("seq-len=%d", len(codes))}
 }
 
 // fixed cases run first on every run: the witnesses of the two repaired defects (an error must be observed now) and inputs of the
@@ -535,6 +658,15 @@ func regressions(r *run.Runner) {
 	// e07a6eb: unknown EPSG code with an empty list, both directions - must be an error (used to be nil)
 	r.Run(run.Case{Prop: "C18", Fn: "ConvertPointListToProjectedPointList", Args: []w.Val{w.L(), w.I(99999)}, Tags: tag("regression-e07a6eb-forward")})
 	r.Run(run.Case{Prop: "C18", Fn: "ConvertProjectedPointListToPointList", Args: []w.Val{w.L(), w.I(1)}, Tags: tag("regression-e07a6eb-backward")})
+	// a history: a valid conversion, then the same unknown code three times (forward, forward, backward) - each must be a conversion error
+	seq := w.L(
+		w.L(w.I(0), w.L(pt(139.753098, 35.685371, 0)), orth),
+		w.L(w.I(0), w.L(pt(139.753098, 35.685371, 0)), w.I(9999)),
+		w.L(w.I(0), w.L(pt(139.753098, 35.685371, 0)), w.I(9999)),
+		w.L(w.I(1), w.L(pt(1.5557244273124e+07, 4.2574271490178e+06, 0)), w.I(9999)),
+		w.L(w.I(1), w.L(pt(1.5557244273124e+07, 4.2574271490178e+06, 0)), orth),
+		w.L(w.I(1), w.L(), w.I(9999)))
+	r.Run(run.Case{Prop: "C18", Fn: "CallSequence", Args: []w.Val{seq}, Tags: tag("regression-history-same-unknown-code")})
 	// a vertical stack: same horizontal position, different altitudes
 	r.Run(run.Case{Prop: "C18", Fn: "ConvertPointListToProjectedPointList",
 		Args: []w.Val{w.L(pt(139.753098, 35.685371, 0), pt(139.753098, 35.685371, 12.5), pt(139.753098, 35.685371, 0)), orth}, Tags: tag("regression-vertical-stack")})
